@@ -31,6 +31,14 @@ Definition bind (b : bindings) (n : str) (v : value) : bindings :=
 (* ---------- syntax ---------- *)
 Inductive loop_field := LIndex | LIndex0 | LFirst | LLast | LLength.
 
+(* the binary operators other than and / or / == (docs "Math", "Comparisons", "Concatenation",
+   "`in` checking"); `a not in b` is `not (a in b)` *)
+Inductive binop :=
+| BMul | BDiv | BFloorDiv | BMod | BPlus | BMinus | BPower
+| BLt | BGt | BLe | BGe | BNe
+| BConcat                                  (* a ~ b *)
+| BIn.                                     (* a in b *)
+
 Inductive expr :=
 | EConst (v : value)
 | EVar (n : str)
@@ -41,7 +49,16 @@ Inductive expr :=
 | EOr (a b : expr)
 | EEq (a b : expr)
 | ETest (e : expr) (name : str)          (* e is name *)
-| EFilter (e : expr) (name : str) (kw : list (str * expr)).   (* e | name(k=v, ...) *)
+| EFilter (e : expr) (name : str) (kw : list (str * expr))    (* e | name(k=v, ...) *)
+| EBin (op : binop) (a b : expr)         (* a op b: both operands are evaluated, left first *)
+| ENeg (e : expr)                        (* -e *)
+| ETernary (c a b : expr)                (* a if c else b: only the chosen branch is evaluated *)
+| EAttrOpt (e : expr) (a : str)          (* e?.a: Undefined when e is Undefined or none *)
+| ESub (opt : bool) (e i : expr)         (* e[i], e?[i] *)
+| ESlice (opt : bool) (e : expr) (start stop step : option expr)   (* e[a:b:c], e?[a:b:c] *)
+| ECall (name : str) (kw : list (str * expr))                       (* name(k=v, ...) *)
+| EArr (items : list (bool * expr))      (* [a, ...b]: true marks a spread entry *)
+| EMap (entries : list (option value * expr)).   (* {k: v, ...m}: None marks a spread entry *)
 
 Definition filter_call := (str * list (str * expr))%type.
 
@@ -181,7 +198,13 @@ Record builtins := {
   b_test : str -> value -> option (res bool);                               (* None: no such test *)
   b_filter : str -> value -> list (str * value) -> option (res value * bool);   (* result, marks-safe *)
   b_format : value -> str;
-  b_escape : str -> str }.
+  b_escape : str -> str;
+  b_binop : binop -> value -> value -> res value;     (* arithmetic, ordering, !=, ~, in *)
+  b_neg : value -> res value;
+  b_subscript : bool -> value -> value -> res value;                 (* optional?, container, index *)
+  b_slice : bool -> value -> value -> value -> value -> res value;   (* optional?, container, start, stop, step *)
+  b_function : str -> list (str * value) -> option (res value * bool);   (* result, marks-safe; None: no such function *)
+  b_build_map : list (option value * value) -> res value }.          (* entries in source order *)
 
 Definition mark_safe_value (v : value) : value :=
   match v with VStr s _ => VStr s true | v => v end.
@@ -202,6 +225,35 @@ Section Sem.
   Variable inc : str -> env -> res str.             (* rendering of an included template *)
 
   Definition eval_kws (ev : expr -> res value) : list (str * expr) -> res (list (str * value)) :=
+    fix go l :=
+      match l with
+      | [] => ROk []
+      | (k, e) :: t =>
+          match ev e with
+          | ROk v => match go t with ROk r => ROk ((k, v) :: r) | RErr x => RErr x end
+          | RErr x => RErr x
+          end
+      end.
+
+  (* the entries of an array literal, in order; a spread entry must be an array and contributes
+     its elements *)
+  Definition eval_items (ev : expr -> res value) : list (bool * expr) -> res (list value) :=
+    fix go l :=
+      match l with
+      | [] => ROk []
+      | (sp, e) :: t =>
+          match ev e with
+          | ROk v =>
+              match (if sp : bool then match v with VArr l' => ROk l' | _ => RErr ErrRender end else ROk [v]) with
+              | ROk vs => match go t with ROk r => ROk (vs ++ r) | RErr x => RErr x end
+              | RErr x => RErr x
+              end
+          | RErr x => RErr x
+          end
+      end.
+
+  Definition eval_entries (ev : expr -> res value)
+    : list (option value * expr) -> res (list (option value * value)) :=
     fix go l :=
       match l with
       | [] => ROk []
@@ -260,6 +312,58 @@ Section Sem.
                    end
         | RErr x => RErr x
         end
+    | EBin op a b =>
+        match eval a en with
+        | ROk va => match eval b en with ROk vb => b_binop B op va vb | RErr x => RErr x end
+        | RErr x => RErr x
+        end
+    | ENeg e1 => match eval e1 en with ROk v => b_neg B v | RErr x => RErr x end
+    | ETernary c a b =>
+        match eval c en with
+        | ROk v => if is_truthy v then eval a en else eval b en
+        | RErr x => RErr x
+        end
+    | EAttrOpt e1 a =>
+        match eval e1 en with
+        | ROk v => if is_undefined v || is_none v then ROk VUndef
+                   else ROk (match b_get_attr B v a with Some x => x | None => VUndef end)
+        | RErr x => RErr x
+        end
+    | ESub opt e1 i =>
+        match eval e1 en with
+        | ROk v => match eval i en with ROk iv => b_subscript B opt v iv | RErr x => RErr x end
+        | RErr x => RErr x
+        end
+    | ESlice opt e1 a b c =>     (* absent bounds are none, an absent step is 1 *)
+        match eval e1 en with
+        | ROk v =>
+            match (match a with Some x => eval x en | None => ROk VNone end) with
+            | ROk va =>
+                match (match b with Some x => eval x en | None => ROk VNone end) with
+                | ROk vb =>
+                    match (match c with Some x => eval x en | None => ROk (VInt I64 1) end) with
+                    | ROk vc => b_slice B opt v va vb vc
+                    | RErr x => RErr x
+                    end
+                | RErr x => RErr x
+                end
+            | RErr x => RErr x
+            end
+        | RErr x => RErr x
+        end
+    | ECall name kw =>
+        match eval_kws (fun x => eval x en) kw with
+        | ROk kws => match b_function B name kws with
+                     | Some (ROk r, safe) => ROk (if safe then mark_safe_value r else r)
+                     | Some (RErr x, _) => RErr x
+                     | None => RErr ErrOther
+                     end
+        | RErr x => RErr x
+        end
+    | EArr items =>
+        match eval_items (fun x => eval x en) items with ROk l => ROk (VArr l) | RErr x => RErr x end
+    | EMap entries =>
+        match eval_entries (fun x => eval x en) entries with ROk l => b_build_map B l | RErr x => RErr x end
     end.
 
   (* {{ v }}: printing Undefined is an error; unsafe values are escaped when autoescaping *)
